@@ -78,7 +78,7 @@ def get_x12file_metadata(param, src_file, map_path=None, do_node_summary=False):
                     err_str = "Map not found.  icvn={}, fic={}, vriic={}".format(icvn, fic, vriic)
                     raise pyx12.errors.EngineError(err_str)
                 cur_map = pyx12.map_if.load_map_file(map_file, param, map_path)
-                src.check_837_lx = True if cur_map.id == '837' else False
+                src.check_837_lx = True if cur_map.id.startswith('837') else False
                 logger.debug('Map file: %s' % (map_file))
             node = cur_map.getnodebypath('/ISA_LOOP/GS_LOOP/GS')
             pass
@@ -97,7 +97,7 @@ def get_x12file_metadata(param, src_file, map_path=None, do_node_summary=False):
                                     icvn, fic, vriic, tspc)
                         raise pyx12.errors.EngineError(err_str)
                     cur_map = pyx12.map_if.load_map_file(map_file, param, map_path)
-                    src.check_837_lx = True if cur_map.id == '837' else False
+                    src.check_837_lx = True if cur_map.id.startswith('837') else False
                     logger.debug('Map file: %s' % (map_file))
                     node = cur_map.getnodebypath('/ISA_LOOP/GS_LOOP/ST_LOOP/HEADER/BHT')
 
